@@ -321,7 +321,8 @@ def listref_len(ex, v):
 
 @lib('itertools.combinations',
      'combinations(S, r): every element is an r-subset of S (as a tuple of '
-     'distinct members); r must be >= 0')
+     'distinct members), every r-subset of S is produced exactly once; r '
+     'must be >= 0')
 def _combinations(ex, args, kwargs, node):
   ctx = ex.ctx
   src, r = args
@@ -337,7 +338,13 @@ def _combinations(ex, args, kwargs, node):
     c.assume(cardlemmas.card(e) == rt)
     return VSet(e, sset.esort)
 
-  it = loopmod.VIter(n, elem)
+  # exactness: the iteration visits every r-subset of S exactly once
+  csort = z3.SetSort(sset.esort)
+  c = z3.Const(ctx.sym('c'), csort)
+  whole = z3.Lambda([c], z3.And(z3.IsSubset(c, sset.t),
+                                cardlemmas.card(c) == rt))
+  it = loopmod.VIter(n, elem, visited_sort=csort, distinct=True, whole=whole,
+                     to_term=lambda v: v.t)
   it.comb = (sset, rt)
   return it
 
